@@ -604,7 +604,8 @@ func (e *Engine) mergeStates(ins []*State) *State {
 			}
 			body = ite(pcs[i], ts[i], body)
 		}
-		return e.c.defineAlways(hint, sort, body)
+		// a constant with a defining equation (not a macro): merged values may occur in quantifier patterns
+		return e.c.defineEq(hint, sort, body)
 	}
 	// heap
 	keys := map[string]bool{}
